@@ -43,6 +43,7 @@ type Exec struct {
 	hashes   []*hashEntry
 	inInit   int
 	lastPanic string
+	hexCharNib map[int]*Term
 	hashAx   map[[2]int]*Term
 	hashCnt  int
 	hexExp   map[string]*Enc
@@ -432,7 +433,7 @@ func (ex *Exec) tolerantly(fr *Frame, v ssa.Value, f func()) {
 
 func NewRun(prog *ssa.Program, entry *ssa.Function) *Run {
 	r := &Run{prog: prog, entry: entry, funcs: map[string]bool{}, intr: map[string]bool{}, assump: map[string]bool{},
-		maxPaths: 20000, unwind: 12, branchTimeoutMs: 4000, maxSteps: 5_000_000, timeoutMs: 20000, solverNm: "z3"}
+		maxPaths: 20000, unwind: 64, branchTimeoutMs: 4000, maxSteps: 5_000_000, timeoutMs: 20000, solverNm: "z3"}
 	r.cond = sync.NewCond(&r.mu)
 	return r
 }
